@@ -539,12 +539,18 @@ func (in *Interp) concreteBytes(sl *SliceVal) (string, bool) {
 
 // ---- indexing
 
-func toIdx(v Value) *Term {
+// toIdx widens an index / length operand to 64 bits (sign- or zero-extending by its static type).
+func toIdx(v Value, typ ...types.Type) *Term {
 	t, ok := v.(*Term)
 	if !ok {
 		return nil
 	}
 	if t.w < 64 {
+		if len(typ) > 0 {
+			if _, signed, ok := bvWidth(typ[0]); ok && !signed {
+				return mkZExt(t, 64)
+			}
+		}
 		return mkSExt(t, 64)
 	}
 	return t
@@ -579,7 +585,7 @@ func (in *Interp) elemAddrs(g *Term, arr *Loc, off int, idx *Term, n int) []PtrA
 func (fr *Frame) indexAddr(x *ssa.IndexAddr) Value {
 	in := fr.in
 	g := fr.g
-	idx := toIdx(fr.val(x.Index))
+	idx := toIdx(fr.val(x.Index), x.Index.Type())
 	if idx == nil {
 		in.unsupported(g, "opaque index")
 		return &PtrVal{}
@@ -617,7 +623,7 @@ func (fr *Frame) indexAddr(x *ssa.IndexAddr) Value {
 func (fr *Frame) index(x *ssa.Index) Value {
 	in := fr.in
 	g := fr.g
-	idx := toIdx(fr.val(x.Index))
+	idx := toIdx(fr.val(x.Index), x.Index.Type())
 	if idx == nil {
 		in.unsupported(g, "opaque index")
 		return in.zero(x.Type())
@@ -675,7 +681,7 @@ func (fr *Frame) lookup(x *ssa.Lookup) Value {
 	g := fr.g
 	switch base := fr.val(x.X).(type) {
 	case *StrVal:
-		idx := toIdx(fr.val(x.Index))
+		idx := toIdx(fr.val(x.Index), x.Index.Type())
 		if idx == nil {
 			in.unsupported(g, "opaque string index")
 			return mkConst(8, 0)
@@ -709,8 +715,8 @@ func (fr *Frame) lookup(x *ssa.Lookup) Value {
 func (fr *Frame) makeSlice(x *ssa.MakeSlice) Value {
 	in := fr.in
 	g := fr.g
-	ln := toIdx(fr.val(x.Len))
-	cp := toIdx(fr.val(x.Cap))
+	ln := toIdx(fr.val(x.Len), x.Len.Type())
+	cp := toIdx(fr.val(x.Cap), x.Cap.Type())
 	if ln == nil || cp == nil {
 		in.unsupported(g, "make with opaque size")
 		return &SliceVal{}
@@ -736,15 +742,15 @@ func (fr *Frame) sliceOp(x *ssa.Slice) Value {
 	g := fr.g
 	var lo, hi, mx *Term
 	if x.Low != nil {
-		lo = toIdx(fr.val(x.Low))
+		lo = toIdx(fr.val(x.Low), x.Low.Type())
 	} else {
 		lo = mkConst(64, 0)
 	}
 	if x.High != nil {
-		hi = toIdx(fr.val(x.High))
+		hi = toIdx(fr.val(x.High), x.High.Type())
 	}
 	if x.Max != nil {
-		mx = toIdx(fr.val(x.Max))
+		mx = toIdx(fr.val(x.Max), x.Max.Type())
 	}
 	if lo == nil || (x.High != nil && hi == nil) || (x.Max != nil && mx == nil) {
 		in.unsupported(g, "slice with opaque bounds")
